@@ -14,6 +14,7 @@ package main
 
 import (
 	"fmt"
+	"go/constant"
 	"go/token"
 	"go/types"
 	"strings"
@@ -36,9 +37,17 @@ type c02Roles struct {
 	fr      *c18Frame   // renders labels of helpers on P's call tree in P's frame
 	// edges of P on which "the signature names a verification plugin" is decided (filled by c02Boundary)
 	named, unnamed map[edgeKey]bool
-	// result indices of L (when L != P): the plugin object, the name, the capability list; -1 if not handed back
-	pluginIdx, nameIdx, capsIdx int
+	// where L (when L != P) hands back the plugin object, the name, the capability list: a result of L, or a field of a
+	// struct-valued result of L (c02Slot); res == -1 if not handed back
+	pluginSlot, nameSlot, capsSlot c02Slot
 }
+
+// c02Slot: a place in what a function returns — result res itself (field == -1) or field `field` of the struct value
+// that is result res. A result object `lookup{name, plugin, caps}` and the three results `name, plugin, caps` carry the
+// same three values; the boundary obligations are stated on the values, wherever they travel.
+type c02Slot struct{ res, field int }
+
+var c02NoSlot = c02Slot{-1, -1}
 
 func c02IsCapsType(t types.Type) bool {
 	return abbrev(types.TypeString(t, nil)) == c02CapsType
@@ -69,7 +78,7 @@ func c02ReachesExec(w *World, g *ssa.Function) bool {
 // c02FindRoles finds L and P. Undecided when the anchors are ambiguous.
 func c02FindRoles(c *Ctx) *c02Roles {
 	w := c.W
-	ro := &c02Roles{w: w, pluginIdx: -1, nameIdx: -1, capsIdx: -1}
+	ro := &c02Roles{w: w, pluginSlot: c02NoSlot, nameSlot: c02NoSlot, capsSlot: c02NoSlot}
 	nGet := 0
 	for _, fn := range w.FuncsOfPkg("verifier") {
 		for _, ci := range allCalls(fn) {
@@ -208,35 +217,39 @@ func c02Unconv(v ssa.Value) ssa.Value {
 //     result is an error only the returns the gate engine classifies success-capable (next to a provably non-nil error the
 //     other results are not used by a caller that fails on that error, which the boundary obligations require);
 //   - a parameter of a function with a closed call-site list (unexported, never used as a value) is the argument at one of
-//     its static call sites.
+//     its static call sites;
+//   - a field read of a struct VALUE (a result object `r := lookup(); r.caps`, `lookup().caps`) is what was stored into that
+//     field where the struct was built: the struct is a value, not shared memory — a local variable holding it whose
+//     address goes nowhere (c02AllocFieldVals) can only change by the stores visible in its function; only a field with a
+//     single assignment (to the field, or to the variable as a whole) is followed; a field that is never stored is the
+//     zero value.
 // Everything else is a leaf. ok=false: the expansion was cut short (depth), the answer is not a complete list.
 
 func c02Leaves(w *World, v ssa.Value) ([]ssa.Value, bool) {
+	type fkey struct {
+		v ssa.Value
+		f int
+	}
 	seen := map[ssa.Value]bool{}
+	seenF := map[fkey]bool{}
 	var out []ssa.Value
 	ok := true
 	var rec func(v ssa.Value, depth int)
-	rec = func(v ssa.Value, depth int) {
-		if seen[v] {
-			return
-		}
-		seen[v] = true
-		if depth > 12 {
-			ok = false
-			return
-		}
+	var field func(sv ssa.Value, f int, depth int) bool
+	// step: v is a node the value merely travels through; `to` is applied to every value it can come from
+	step := func(v ssa.Value, depth int, to func(ssa.Value, int)) bool {
 		switch x := v.(type) {
 		case *ssa.Phi:
 			for _, e := range x.Edges {
-				rec(e, depth+1)
+				to(e, depth+1)
 			}
-			return
+			return true
 		case *ssa.ChangeInterface:
-			rec(x.X, depth)
-			return
+			to(x.X, depth)
+			return true
 		case *ssa.ChangeType:
-			rec(x.X, depth)
-			return
+			to(x.X, depth)
+			return true
 		case *ssa.Parameter:
 			fn := x.Parent()
 			sites, closed := c05CallSites(w, fn)
@@ -250,11 +263,11 @@ func c02Leaves(w *World, v ssa.Value) ([]ssa.Value, bool) {
 				for _, s := range sites {
 					if idx >= len(s.Call.Args) {
 						ok = false
-						return
+						return true
 					}
-					rec(s.Call.Args[idx], depth+1)
+					to(s.Call.Args[idx], depth+1)
 				}
-				return
+				return true
 			}
 		case *ssa.Extract, *ssa.Call:
 			call := callOf(v)
@@ -272,10 +285,141 @@ func c02Leaves(w *World, v ssa.Value) ([]ssa.Value, bool) {
 						for _, r := range rets {
 							if k >= len(r.Results) {
 								ok = false
-								return
+								return true
 							}
-							rec(r.Results[k], depth+1)
+							to(r.Results[k], depth+1)
 						}
+						return true
+					}
+				}
+			}
+		}
+		return false
+	}
+	// allocField: field f of the struct variable A
+	allocField := func(A *ssa.Alloc, f int, depth int) bool {
+		vals, whole, good := c02AllocFieldVals(A, f)
+		if !good || len(vals)+len(whole) > 1 {
+			// a field assigned in several places (`r := lookup(); r.caps = nil`) is a mutable variable: which assignment a
+			// read sees depends on the path, and the union would let a value that was overwritten count as still there
+			return false
+		}
+		for _, x := range vals {
+			rec(x, depth+1)
+		}
+		for _, s := range whole {
+			if !field(s, f, depth+1) {
+				return false
+			}
+		}
+		if len(vals) == 0 && len(whole) == 0 {
+			rec(c02ZeroField(A.Type().Underlying().(*types.Pointer).Elem(), f), depth+1)
+		}
+		return true
+	}
+	field = func(sv ssa.Value, f int, depth int) bool {
+		if seenF[fkey{sv, f}] {
+			return true
+		}
+		seenF[fkey{sv, f}] = true
+		if depth > 12 {
+			ok = false
+			return true
+		}
+		switch x := sv.(type) {
+		case *ssa.Const:
+			if x.Value == nil && c02StructType(x.Type()) != nil {
+				rec(c02ZeroField(x.Type(), f), depth+1)
+				return true
+			}
+			return false
+		case *ssa.UnOp:
+			if A, isA := x.X.(*ssa.Alloc); isA && x.Op == token.MUL && c02StructType(x.Type()) != nil {
+				return allocField(A, f, depth)
+			}
+			return false
+		}
+		good := true
+		if step(sv, depth, func(y ssa.Value, d int) {
+			if !field(y, f, d) {
+				good = false
+			}
+		}) {
+			return good
+		}
+		return false
+	}
+	// ptrField: field f of the object the pointer pv points to, for a field that is only written at construction
+	// (c02FieldOnlyBuilt): what the constructor stored, wherever the object was built
+	var ptrField func(pv ssa.Value, f int, depth int) bool
+	ptrField = func(pv ssa.Value, f int, depth int) bool {
+		if seenF[fkey{pv, f}] {
+			return true
+		}
+		seenF[fkey{pv, f}] = true
+		if depth > 12 {
+			ok = false
+			return true
+		}
+		if A, isA := pv.(*ssa.Alloc); isA {
+			vals, whole, good := c02AllocFieldVals2(A, f, true)
+			if !good || len(whole) > 0 || len(vals) > 1 {
+				return false
+			}
+			if len(vals) == 1 {
+				rec(vals[0], depth+1)
+			} else {
+				rec(c02ZeroField(A.Type().Underlying().(*types.Pointer).Elem(), f), depth+1)
+			}
+			return true
+		}
+		good := true
+		if step(pv, depth, func(y ssa.Value, d int) {
+			if !ptrField(y, f, d) {
+				good = false
+			}
+		}) {
+			return good
+		}
+		return false
+	}
+	rec = func(v ssa.Value, depth int) {
+		if seen[v] {
+			return
+		}
+		seen[v] = true
+		if depth > 12 {
+			ok = false
+			return
+		}
+		if step(v, depth, rec) {
+			return
+		}
+		// a field read of a struct value: opened if every struct it can be read from can be; otherwise the read is a leaf
+		try := func(open func() bool) bool {
+			saved := out
+			out = nil
+			if open() {
+				out = append(saved, out...)
+				return true
+			}
+			out = saved
+			return false
+		}
+		switch x := v.(type) {
+		case *ssa.Field:
+			if try(func() bool { return field(x.X, x.Field, depth) }) {
+				return
+			}
+		case *ssa.UnOp:
+			if fa, isFa := x.X.(*ssa.FieldAddr); isFa && x.Op == token.MUL {
+				if A, isA := fa.X.(*ssa.Alloc); isA {
+					if try(func() bool { return allocField(A, fa.Field, depth) }) {
+						return
+					}
+				}
+				if c02FieldOnlyBuilt(w, fa.X.Type(), fa.Field) {
+					if try(func() bool { return ptrField(fa.X, fa.Field, depth) }) {
 						return
 					}
 				}
@@ -285,6 +429,150 @@ func c02Leaves(w *World, v ssa.Value) ([]ssa.Value, bool) {
 	}
 	rec(v, 0)
 	return out, ok
+}
+
+// c02StructType: the struct type under t (a struct VALUE, not a pointer to one), nil if t is none.
+func c02StructType(t types.Type) *types.Struct {
+	st, _ := t.Underlying().(*types.Struct)
+	return st
+}
+
+var c02ZeroMemo = map[*types.Var]*ssa.Const{}
+
+// c02ZeroField: the zero value of field f of struct type t, as a constant (one per field: values are compared by identity).
+func c02ZeroField(t types.Type, f int) ssa.Value {
+	fv := c02StructType(t).Field(f)
+	if k, ok := c02ZeroMemo[fv]; ok {
+		return k
+	}
+	var k *ssa.Const
+	if b, ok := fv.Type().Underlying().(*types.Basic); ok {
+		switch {
+		case b.Info()&types.IsString != 0:
+			k = ssa.NewConst(constant.MakeString(""), fv.Type())
+		case b.Info()&types.IsBoolean != 0:
+			k = ssa.NewConst(constant.MakeBool(false), fv.Type())
+		case b.Info()&types.IsNumeric != 0:
+			k = ssa.NewConst(constant.MakeInt64(0), fv.Type())
+		}
+	}
+	if k == nil {
+		k = ssa.NewConst(nil, fv.Type())
+	}
+	c02ZeroMemo[fv] = k
+	return k
+}
+
+// c02AllocFieldVals: A is a variable of struct type (a composite literal under construction, a local that holds a result
+// object). Returns the values stored into its field f, the struct values stored into A as a whole, and good=false if A can
+// change in a way the two lists do not show: its address, or the address of field f, goes anywhere but into a load or a
+// store (call argument, closure, stored pointer, returned pointer).
+func c02AllocFieldVals(A *ssa.Alloc, f int) (vals, whole []ssa.Value, good bool) {
+	return c02AllocFieldVals2(A, f, false)
+}
+
+// c02AllocFieldVals2 with handedOn: the object may also be returned (a result object handed back by pointer). What the
+// receiver does with it is not this function's business: the callers pair this with c02FieldOnlyBuilt (no code of the
+// module stores into that field of an object it did not just allocate).
+func c02AllocFieldVals2(A *ssa.Alloc, f int, handedOn bool) (vals, whole []ssa.Value, good bool) {
+	pt, ok := A.Type().Underlying().(*types.Pointer)
+	if !ok || c02StructType(pt.Elem()) == nil || A.Referrers() == nil {
+		return nil, nil, false
+	}
+	for _, r := range *A.Referrers() {
+		switch x := r.(type) {
+		case *ssa.FieldAddr:
+			if x.Field != f || x.Referrers() == nil {
+				continue // the address of another field gives no access to this one
+			}
+			for _, rr := range *x.Referrers() {
+				switch y := rr.(type) {
+				case *ssa.Store:
+					if y.Addr != ssa.Value(x) {
+						return nil, nil, false
+					}
+					vals = append(vals, y.Val)
+				case *ssa.UnOp:
+					if y.Op != token.MUL {
+						return nil, nil, false
+					}
+				case *ssa.DebugRef:
+				default:
+					return nil, nil, false
+				}
+			}
+		case *ssa.Store:
+			if x.Addr != ssa.Value(A) {
+				return nil, nil, false
+			}
+			whole = append(whole, x.Val)
+		case *ssa.UnOp:
+			if x.Op != token.MUL {
+				return nil, nil, false
+			}
+		case *ssa.DebugRef:
+		case *ssa.Return:
+			if !handedOn {
+				return nil, nil, false
+			}
+		default:
+			return nil, nil, false
+		}
+	}
+	return vals, whole, true
+}
+
+// c02PtrStruct: t is a pointer to a struct type of the module; returns the struct.
+func c02PtrStruct(t types.Type) *types.Struct {
+	pt, ok := t.Underlying().(*types.Pointer)
+	if !ok {
+		return nil
+	}
+	if n, isN := pt.Elem().(*types.Named); !isN || n.Obj().Pkg() == nil || !strings.HasPrefix(n.Obj().Pkg().Path(), modPath) {
+		return nil
+	}
+	return c02StructType(pt.Elem())
+}
+
+var c02OnlyBuiltMemo = map[*types.Var]bool{}
+
+// c02FieldOnlyBuilt: field f of the struct type pointed to by t is written nowhere in the module except into an object the
+// writing function has just allocated itself (a composite literal, `r := new(T); r.f = …`), and the type is unexported (no
+// other module can name the field): an object of that type that has left its constructor is, as far as field f goes,
+// immutable — every later read of p.f sees what the constructor stored.
+func c02FieldOnlyBuilt(w *World, t types.Type, f int) bool {
+	st := c02PtrStruct(t)
+	if st == nil || f >= st.NumFields() {
+		return false
+	}
+	fv := st.Field(f)
+	if r, ok := c02OnlyBuiltMemo[fv]; ok {
+		return r
+	}
+	ok := !fv.Exported() || !t.Underlying().(*types.Pointer).Elem().(*types.Named).Obj().Exported()
+	for _, fn := range w.Funcs {
+		for _, b := range fn.Blocks {
+			for _, in := range b.Instrs {
+				fa, isFa := in.(*ssa.FieldAddr)
+				if !isFa || fa.Field != f || c02PtrStruct(fa.X.Type()) != st || fa.Referrers() == nil {
+					continue
+				}
+				for _, r := range *fa.Referrers() {
+					switch y := r.(type) {
+					case *ssa.UnOp, *ssa.DebugRef:
+					case *ssa.Store:
+						if _, fresh := fa.X.(*ssa.Alloc); !fresh || y.Addr != ssa.Value(fa) {
+							ok = false
+						}
+					default:
+						ok = false // the address of the field goes somewhere
+					}
+				}
+			}
+		}
+	}
+	c02OnlyBuiltMemo[fv] = ok
+	return ok
 }
 
 func c02ReturnsError(g *ssa.Function) bool {
@@ -481,19 +769,37 @@ func c02Boundary(c *Ctx, ro *c02Roles) bool {
 			getObj[e] = true
 		}
 	}
+	// the places in which L can hand something back: its results and the fields of its struct-valued results
 	res := ro.L.Signature.Results()
+	var slots []c02Slot
+	slotType := map[c02Slot]types.Type{}
 	for k := 0; k < res.Len(); k++ {
-		if c02IsCapsType(res.At(k).Type()) {
-			if ro.capsIdx >= 0 {
+		slots = append(slots, c02Slot{k, -1})
+		slotType[c02Slot{k, -1}] = res.At(k).Type()
+		st := c02StructType(res.At(k).Type())
+		if st == nil {
+			st = c02PtrStruct(res.At(k).Type()) // a result object handed back by pointer
+		}
+		if st != nil {
+			for f := 0; f < st.NumFields(); f++ {
+				slots = append(slots, c02Slot{k, f})
+				slotType[c02Slot{k, f}] = st.Field(f).Type()
+			}
+		}
+	}
+	for _, sl := range slots {
+		if c02IsCapsType(slotType[sl]) {
+			if ro.capsSlot.res >= 0 {
 				c.Unk("plugin/lookup-results", rule, w.FnPos(ro.L), "the lookup helper returns two capability lists")
 				return false
 			}
-			ro.capsIdx = k
+			ro.capsSlot = sl
 		}
 	}
 	type side struct {
 		ex    *ExitSum
 		named bool
+		vals  map[c02Slot]ssa.Value // what the exit delivers in each slot (nil: cannot be told)
 	}
 	var sides []side
 	for _, ex := range s.Exits {
@@ -503,45 +809,67 @@ func c02Boundary(c *Ctx, ro *c02Roles) bool {
 			c.Bad("plugin/lookup-results", rule, w.InstrPos(ex.Ret), "this success-capable exit of the lookup helper is not decided by the test of the plugin name against \"\"; facts: "+summarizeLabels(ex.Checked, 8))
 			return false
 		}
-		sides = append(sides, side{ex, n})
+		rs := c02ExitResults(ex)
+		vals := map[c02Slot]ssa.Value{}
+		for _, sl := range slots {
+			vals[sl] = c02SlotValue(w, rs, sl, ex.Ret)
+		}
+		sides = append(sides, side{ex, n, vals})
 	}
-	// the result that carries the plugin object / the name: read off the named exits
-	nameCand := map[int]int{}
+	show := func(v ssa.Value) string {
+		if v == nil {
+			return "a value that cannot be told (the result object is not built in one place)"
+		}
+		return desc(v)
+	}
+	// the slot that carries the plugin object / the name: read off the named exits
+	nameCand := map[c02Slot]int{}
 	nN := 0
 	for _, sd := range sides {
 		if !sd.named {
 			continue
 		}
 		nN++
-		for k, r := range c02ExitResults(sd.ex) {
+		for _, sl := range slots {
+			r := sd.vals[sl]
+			if r == nil {
+				continue
+			}
 			if getObj[c02Unconv(r)] {
-				if ro.pluginIdx >= 0 && ro.pluginIdx != k {
-					c.Bad("plugin/lookup-results", rule, w.InstrPos(sd.ex.Ret), "the looked-up object is handed back in two results")
+				if ro.pluginSlot.res >= 0 && ro.pluginSlot != sl {
+					c.Bad("plugin/lookup-results", rule, w.InstrPos(sd.ex.Ret), "the looked-up object is handed back in two places")
 					return false
 				}
-				ro.pluginIdx = k
+				ro.pluginSlot = sl
 			}
 			if r == nameV {
-				nameCand[k]++
+				nameCand[sl]++
 			}
 		}
 	}
-	for k, n := range nameCand {
-		if n == nN && (ro.nameIdx < 0 || k < ro.nameIdx) {
-			ro.nameIdx = k
+	for _, sl := range slots { // in declaration order: the first slot that carries the name on every named exit
+		if nameCand[sl] == nN && nN > 0 && ro.nameSlot.res < 0 {
+			ro.nameSlot = sl
 		}
 	}
-	if ro.pluginIdx < 0 {
+	if ro.pluginSlot.res < 0 {
 		c.Bad("plugin/lookup-results", rule, w.FnPos(ro.L), "no exit of the lookup helper on the name != \"\" side hands back the object Manager.Get returned")
 		return false
 	}
 	nNamed, nUnnamed := 0, 0
 	for _, sd := range sides {
-		rs := c02ExitResults(sd.ex)
+		pv := sd.vals[ro.pluginSlot]
+		var nv, cv ssa.Value
+		if ro.nameSlot.res >= 0 {
+			nv = sd.vals[ro.nameSlot]
+		}
+		if ro.capsSlot.res >= 0 {
+			cv = sd.vals[ro.capsSlot]
+		}
 		if sd.named {
 			nNamed++
-			if !getObj[c02Unconv(rs[ro.pluginIdx])] {
-				c.Bad("plugin/lookup-results", rule, w.InstrPos(sd.ex.Ret), "with a plugin named the helper hands back "+desc(rs[ro.pluginIdx])+" instead of the object Manager.Get returned: the plugin named by the signature would not take part in the verification")
+			if pv == nil || !getObj[c02Unconv(pv)] {
+				c.Bad("plugin/lookup-results", rule, w.InstrPos(sd.ex.Ret), "with a plugin named the helper hands back "+show(pv)+" instead of the object Manager.Get returned: the plugin named by the signature would not take part in the verification")
 				return false
 			}
 			invoked := false
@@ -554,22 +882,22 @@ func c02Boundary(c *Ctx, ro *c02Roles) bool {
 				c.Bad("plugin/lookup-results", rule, w.InstrPos(sd.ex.Ret), "with a plugin named the object handed back is not known to be non-nil (no GetMetadata invoked on it on every path to this exit)")
 				return false
 			}
-			if ro.nameIdx >= 0 && rs[ro.nameIdx] != nameV {
-				c.Bad("plugin/lookup-results", rule, w.InstrPos(sd.ex.Ret), "with a plugin named the helper hands back a name other than the one it looked up: "+desc(rs[ro.nameIdx]))
+			if ro.nameSlot.res >= 0 && nv != nameV {
+				c.Bad("plugin/lookup-results", rule, w.InstrPos(sd.ex.Ret), "with a plugin named the helper hands back a name other than the one it looked up: "+show(nv))
 				return false
 			}
 		} else {
 			nUnnamed++
-			if !isNilConst(rs[ro.pluginIdx]) {
-				c.Bad("plugin/lookup-results", rule, w.InstrPos(sd.ex.Ret), "without a plugin named the helper hands back a plugin object that is not the nil constant: "+desc(rs[ro.pluginIdx]))
+			if pv == nil || !isNilConst(pv) {
+				c.Bad("plugin/lookup-results", rule, w.InstrPos(sd.ex.Ret), "without a plugin named the helper hands back a plugin object that is not the nil constant: "+show(pv))
 				return false
 			}
-			if ro.capsIdx >= 0 && !isNilConst(rs[ro.capsIdx]) {
-				c.Bad("plugin/lookup-results", rule, w.InstrPos(sd.ex.Ret), "without a plugin named the helper hands back a capability list that is not the nil constant (native checks would be routed away to nobody): "+desc(rs[ro.capsIdx]))
+			if ro.capsSlot.res >= 0 && (cv == nil || !isNilConst(cv)) {
+				c.Bad("plugin/lookup-results", rule, w.InstrPos(sd.ex.Ret), "without a plugin named the helper hands back a capability list that is not the nil constant (native checks would be routed away to nobody): "+show(cv))
 				return false
 			}
-			if ro.nameIdx >= 0 && rs[ro.nameIdx] != nameV && !c02IsEmptyString(rs[ro.nameIdx]) {
-				c.Bad("plugin/lookup-results", rule, w.InstrPos(sd.ex.Ret), "without a plugin named the helper hands back a name that is not \"\": "+desc(rs[ro.nameIdx]))
+			if ro.nameSlot.res >= 0 && nv != nameV && (nv == nil || !c02IsEmptyString(nv)) {
+				c.Bad("plugin/lookup-results", rule, w.InstrPos(sd.ex.Ret), "without a plugin named the helper hands back a name that is not \"\": "+show(nv))
 				return false
 			}
 		}
@@ -581,17 +909,13 @@ func c02Boundary(c *Ctx, ro *c02Roles) bool {
 	c.OK("plugin/lookup-results", rule, w.FnPos(ro.L))
 	// the precondition edges of P: tests of the handed-back plugin object against nil, of the handed-back name against ""
 	plug, name := map[ssa.Value]bool{}, map[ssa.Value]bool{}
-	for _, r := range *ro.lcall.Referrers() {
-		if e, ok := r.(*ssa.Extract); ok {
-			if e.Index == ro.pluginIdx {
-				for v := range c02Conversions(e) {
-					plug[v] = true
-				}
-			}
-			if e.Index == ro.nameIdx {
-				name[e] = true
-			}
+	for v := range c02SlotReaders(w, ro.lcall, ro.pluginSlot) {
+		for x := range c02Conversions(v) {
+			plug[x] = true
 		}
+	}
+	for v := range c02SlotReaders(w, ro.lcall, ro.nameSlot) {
+		name[v] = true
 	}
 	ro.named, ro.unnamed = map[edgeKey]bool{}, map[edgeKey]bool{}
 	for _, b := range ro.P.Blocks {
@@ -615,6 +939,173 @@ func c02Boundary(c *Ctx, ro *c02Roles) bool {
 		}
 	}
 	return true
+}
+
+// c02SlotValue: what the exit ret, with the operands rs, delivers in the slot; nil if that cannot be told.
+func c02SlotValue(w *World, rs []ssa.Value, sl c02Slot, ret *ssa.Return) ssa.Value {
+	if sl.res < 0 || sl.res >= len(rs) {
+		return nil
+	}
+	if sl.field < 0 {
+		return rs[sl.res]
+	}
+	return c02BuiltField(w, rs[sl.res], sl.field, ret, 0)
+}
+
+// c02BuiltField: field f of the struct value sv (or of the object sv points to) as read at the instruction `at`, when the
+// value is known exactly: the zero struct constant (every field is zero), or the content of a variable that is read AFTER
+// its only assignment to that field — one store to the field (or one store of a whole struct, opened in turn) that
+// dominates the read, no other store to it, the address going nowhere (c02AllocFieldVals); a field never stored is zero. A
+// variable assigned on some paths only (`if … { r.plugin = p }`) has no dominating store and is not followed: nil.
+// For an object handed back by pointer (`return &lookup{…}, nil`) the same, with `at` the return, for a field that no code
+// of the module writes after construction (c02FieldOnlyBuilt): what the return delivers is what every later read sees.
+func c02BuiltField(w *World, sv ssa.Value, f int, at ssa.Instruction, depth int) ssa.Value {
+	if depth > 4 {
+		return nil
+	}
+	switch x := sv.(type) {
+	case *ssa.Const:
+		if x.Value == nil && c02StructType(x.Type()) != nil {
+			return c02ZeroField(x.Type(), f)
+		}
+	case *ssa.Alloc:
+		if c02PtrStruct(x.Type()) == nil || !c02FieldOnlyBuilt(w, x.Type(), f) {
+			return nil
+		}
+		vals, whole, good := c02AllocFieldVals2(x, f, true)
+		if !good || len(whole) > 0 || len(vals) > 1 {
+			return nil
+		}
+		if len(vals) == 0 {
+			return c02ZeroField(x.Type().Underlying().(*types.Pointer).Elem(), f)
+		}
+		if st := c02FieldStore(x, f); st == nil || !c02InstrDominates(st, at) {
+			return nil
+		}
+		return vals[0]
+	case *ssa.UnOp:
+		A, isA := x.X.(*ssa.Alloc)
+		if !isA || x.Op != token.MUL || c02StructType(x.Type()) == nil {
+			return nil
+		}
+		vals, whole, good := c02AllocFieldVals(A, f)
+		if !good || len(vals)+len(whole) > 1 {
+			return nil
+		}
+		if len(vals)+len(whole) == 0 {
+			return c02ZeroField(x.Type(), f)
+		}
+		st := c02FieldStore(A, f)
+		if st == nil || !c02InstrDominates(st, x) {
+			return nil
+		}
+		if len(vals) == 1 {
+			return vals[0]
+		}
+		return c02BuiltField(w, whole[0], f, st, depth+1)
+	}
+	return nil
+}
+
+// c02FieldStore: the single store that assigns field f of A (to the field, or to A as a whole); nil if there are several.
+func c02FieldStore(A *ssa.Alloc, f int) *ssa.Store {
+	var out *ssa.Store
+	n := 0
+	for _, r := range *A.Referrers() {
+		switch x := r.(type) {
+		case *ssa.Store:
+			if x.Addr == ssa.Value(A) {
+				out = x
+				n++
+			}
+		case *ssa.FieldAddr:
+			if x.Field != f || x.Referrers() == nil {
+				continue
+			}
+			for _, rr := range *x.Referrers() {
+				if st, ok := rr.(*ssa.Store); ok && st.Addr == ssa.Value(x) {
+					out = st
+					n++
+				}
+			}
+		}
+	}
+	if n != 1 {
+		return nil
+	}
+	return out
+}
+
+// c02InstrDominates: a is executed before b on every path to b.
+func c02InstrDominates(a, b ssa.Instruction) bool {
+	if a.Block() == b.Block() {
+		return instrIndex(a) < instrIndex(b)
+	}
+	return a.Block().Dominates(b.Block())
+}
+
+// c02SlotReaders: the values of the caller that ARE what the call hands back in the slot: the Extract of the result, or —
+// for a field of a result object — the reads of that field: `call().f`, or `r.f` for a variable r that holds the object
+// (assigned once, from this call, before the read; never assigned field-wise; its address going nowhere), or `r.f` for
+// the pointer r the call returned.
+func c02SlotReaders(w *World, call *ssa.Call, sl c02Slot) map[ssa.Value]bool {
+	out := map[ssa.Value]bool{}
+	if sl.res < 0 || call.Referrers() == nil {
+		return out
+	}
+	for _, r := range *call.Referrers() {
+		e, ok := r.(*ssa.Extract)
+		if !ok || e.Index != sl.res {
+			continue
+		}
+		if sl.field < 0 {
+			out[e] = true
+			continue
+		}
+		if e.Referrers() == nil {
+			continue
+		}
+		for _, u := range *e.Referrers() {
+			switch x := u.(type) {
+			case *ssa.Field:
+				if x.X == ssa.Value(e) && x.Field == sl.field {
+					out[x] = true
+				}
+			case *ssa.FieldAddr:
+				// the object came by pointer: `r.f` reads the field of the very object the helper built, which nobody
+				// writes after construction
+				if x.X != ssa.Value(e) || x.Field != sl.field || x.Referrers() == nil || !c02FieldOnlyBuilt(w, e.Type(), sl.field) {
+					continue
+				}
+				for _, rr := range *x.Referrers() {
+					if ld, isLd := rr.(*ssa.UnOp); isLd && ld.Op == token.MUL {
+						out[ld] = true
+					}
+				}
+			case *ssa.Store:
+				A, isA := x.Addr.(*ssa.Alloc)
+				if !isA || x.Val != ssa.Value(e) {
+					continue
+				}
+				vals, whole, good := c02AllocFieldVals(A, sl.field)
+				if !good || len(vals) != 0 || len(whole) != 1 {
+					continue
+				}
+				for _, ar := range *A.Referrers() {
+					fa, isFa := ar.(*ssa.FieldAddr)
+					if !isFa || fa.Field != sl.field || fa.Referrers() == nil {
+						continue
+					}
+					for _, rr := range *fa.Referrers() {
+						if ld, isLd := rr.(*ssa.UnOp); isLd && ld.Op == token.MUL && c02InstrDominates(x, ld) {
+							out[ld] = true
+						}
+					}
+				}
+			}
+		}
+	}
+	return out
 }
 
 // ---------- labels of helpers in P's frame -----------------------------------------------------------------------------
@@ -730,32 +1221,151 @@ func (x *c02Lists) filteredMetadataCap(a *ssa.Call, e ssa.Value) bool {
 	return true
 }
 
-// requestAppends: the append calls that can have built the list v (all of them, through the lists they extend).
-func (x *c02Lists) requestAppends(v ssa.Value, out *[]*ssa.Call) bool {
+// c02Pos: a place on a control-flow graph at which a value flows on: a block of fn, or (pred >= 0) the edge from the
+// pred-th predecessor of that block into it (a phi edge).
+type c02Pos struct {
+	fn   *ssa.Function
+	b    *ssa.BasicBlock
+	pred int
+}
+
+// requestSources walks backwards from the list v handed to the plugin execution (at pos) and sorts what the list can be:
+//   - an empty list;
+//   - an append with an explicit element list (collected in apps: the caller requires the per-element gate and the
+//     provenance of every element) onto such a list;
+//   - the DECLARED capability list as a whole (`request := declared; if skip { request = filtered }`): every value it can be
+//     is a value the declared list can be. Nothing was dropped from it, so it may reach the request only where the level
+//     does not skip revocation: the place where it flows in (phi edge, return of a helper, the execution itself) is
+//     collected in reuse and the caller requires it to be unreachable once the `revocation action != skip` edges are cut.
+//
+// The walk goes through phis, through the results of module helpers (operand of each value-return, at that return) and
+// through parameters (argument at each call site, at that call). Anything else: false (x.why says what).
+func (x *c02Lists) requestSources(v ssa.Value, pos c02Pos, declared ssa.Value, apps *[]*ssa.Call, reuse *[]c02Pos) bool {
 	w := x.ro.w
+	type key struct {
+		v ssa.Value
+		p c02Pos
+	}
+	seen := map[key]bool{}
+	var walk func(v ssa.Value, pos c02Pos, depth int) bool
+	walk = func(v ssa.Value, pos c02Pos, depth int) bool {
+		if seen[key{v, pos}] {
+			return true
+		}
+		seen[key{v, pos}] = true
+		if depth > 12 {
+			x.why = "the origins of the request list could not be enumerated"
+			return false
+		}
+		if c02EmptyList(v) {
+			return true
+		}
+		if declared != nil && c02IsCapsType(v.Type()) && c02SubsetOf(w, v, declared) && !c02AllEmpty(w, v) {
+			*reuse = append(*reuse, pos)
+			return true
+		}
+		switch y := v.(type) {
+		case *ssa.Phi:
+			for i, e := range y.Edges {
+				if !walk(e, c02Pos{y.Parent(), y.Block(), i}, depth+1) {
+					return false
+				}
+			}
+			return true
+		case *ssa.ChangeType:
+			return walk(y.X, pos, depth)
+		case *ssa.Parameter:
+			fn := y.Parent()
+			sites, closed := c05CallSites(w, fn)
+			idx := -1
+			for i, q := range fn.Params {
+				if q == y {
+					idx = i
+				}
+			}
+			if !closed || len(sites) == 0 || idx < 0 {
+				break
+			}
+			for _, s := range sites {
+				if idx >= len(s.Call.Args) || !walk(s.Call.Args[idx], c02Pos{s.Parent(), s.Block(), -1}, depth+1) {
+					return false
+				}
+			}
+			return true
+		case *ssa.Extract, *ssa.Call:
+			if a := c02AppendCall(v); a != nil {
+				if !x.seen[a] {
+					x.seen[a] = true
+					*apps = append(*apps, a)
+				}
+				return walk(a.Call.Args[0], c02Pos{a.Parent(), a.Block(), -1}, depth+1)
+			}
+			call := callOf(v)
+			k := 0
+			if e, isE := v.(*ssa.Extract); isE {
+				k = e.Index
+			}
+			if call == nil {
+				break
+			}
+			g := staticCallee(call)
+			if g == nil || g.Blocks == nil || !w.IsProductFn(g) {
+				break
+			}
+			rets := c02ValueReturns(w, g)
+			if c02ReturnsError(g) && !c02ErrChecked(w, call) {
+				rets = nil
+			}
+			if len(rets) == 0 {
+				break
+			}
+			for _, r := range rets {
+				if k >= len(r.Results) || !walk(r.Results[k], c02Pos{g, r.Block(), -1}, depth+1) {
+					return false
+				}
+			}
+			return true
+		}
+		x.why = "the request list can be " + desc(v)
+		return false
+	}
+	return walk(v, pos, 0)
+}
+
+// c02AllEmpty: every value v can be is an empty list.
+func c02AllEmpty(w *World, v ssa.Value) bool {
 	leaves, ok := c02Leaves(w, v)
 	if !ok {
 		return false
 	}
-	for _, leaf := range leaves {
-		if c02EmptyList(leaf) {
-			continue
-		}
-		a := c02AppendCall(leaf)
-		if a == nil {
-			x.why = "the request list can be " + desc(leaf)
-			return false
-		}
-		if x.seen[a] {
-			continue
-		}
-		x.seen[a] = true
-		*out = append(*out, a)
-		if !x.requestAppends(a.Call.Args[0], out) {
+	for _, l := range leaves {
+		if !c02EmptyList(l) {
 			return false
 		}
 	}
 	return true
+}
+
+// c02PosBlocked: with the edges `cut` of pos.fn removed, the place pos cannot be passed.
+func c02PosBlocked(w *World, pos c02Pos, cut map[edgeKey]bool) bool {
+	fi := w.Info(pos.fn)
+	if pos.pred < 0 {
+		return !fi.reachHit(entryState(), cut, map[int]bool{pos.b.Index: true})
+	}
+	p := pos.b.Preds[pos.pred]
+	open := false
+	for j, s := range p.Succs {
+		if s == pos.b && !cut[edgeKey{p.Index, j}] {
+			open = true
+		}
+	}
+	if !open {
+		return true
+	}
+	if p.Index == 0 {
+		return false
+	}
+	return !fi.reachHit(entryState(), cut, map[int]bool{p.Index: true})
 }
 
 // sameList: every value `list` can be is a value `declared` can be (the list a helper ranges over is its parameter; the
@@ -771,7 +1381,7 @@ func c02SubsetOf(w *World, list, declared ssa.Value) bool {
 		in[v] = true
 	}
 	for _, v := range a {
-		if !in[v] {
+		if !in[v] && !c02EmptyList(v) { // an empty list adds no element
 			return false
 		}
 	}
@@ -907,4 +1517,288 @@ func c02StageCall(ro *c02Roles, inner *ssa.Call) *ssa.Call {
 		return nil
 	}
 	return sites[0]
+}
+
+// ---------- results built by a constructor -----------------------------------------------------------------------------
+
+type c02TypeUse struct {
+	site *ssa.Call  // the call at which the type is chosen
+	k    *ssa.Const // the constant chosen there
+	md   string     // the enforcement map the constructor reads, spelled in the frame of that call
+}
+
+// c02TypeUses: tv, a parameter of fn, is stored as the Type of a ValidationResult that fn allocates. Returns, for every call
+// of fn, the constant handed in (through wrappers that pass their own parameter on, up to three levels). why != "": some
+// caller hands in something that is not a constant, or the callers of fn are not all known (exported, used as a value).
+func c02TypeUses(w *World, fn *ssa.Function, tv ssa.Value, md string, depth int) (uses []c02TypeUse, why string) {
+	par, ok := c02Unconv(tv).(*ssa.Parameter)
+	if !ok || par.Parent() != fn {
+		return nil, "neither a constant nor a parameter of the allocating function"
+	}
+	if depth > 3 {
+		return nil, "constructor nesting too deep"
+	}
+	idx := -1
+	for i, q := range fn.Params {
+		if q == par {
+			idx = i
+		}
+	}
+	sites, closed := c05CallSites(w, fn)
+	if !closed || idx < 0 {
+		return nil, "the callers of " + fnName(fn) + " are not all known"
+	}
+	for _, s := range sites {
+		if len(s.Call.Args) != len(fn.Params) {
+			return nil, "call with a different argument list at " + w.InstrPos(s)
+		}
+		// the map, in the caller's frame
+		smd := md
+		for j, q := range fn.Params {
+			if pre := "param:" + q.Name(); strings.HasPrefix(md, pre+".") || md == pre {
+				smd = desc(s.Call.Args[j]) + strings.TrimPrefix(md, pre)
+			}
+		}
+		switch a := c02Unconv(s.Call.Args[idx]).(type) {
+		case *ssa.Const:
+			if a.Value == nil {
+				return nil, "no constant at " + w.InstrPos(s)
+			}
+			uses = append(uses, c02TypeUse{s, a, smd})
+		case *ssa.Parameter:
+			more, why := c02TypeUses(w, s.Parent(), a, smd, depth+1)
+			if why != "" {
+				return nil, why
+			}
+			uses = append(uses, more...)
+		default:
+			return nil, "the type handed in at " + w.InstrPos(s) + " is " + desc(s.Call.Args[idx])
+		}
+	}
+	return uses, ""
+}
+
+// c02CallOrdinal: the position of the call among the calls of the same callee in its function.
+func c02CallOrdinal(call *ssa.Call) int {
+	g := staticCallee(call)
+	n := 0
+	for _, ci := range allCalls(call.Parent()) {
+		if ci == ssa.CallInstruction(call) {
+			return n
+		}
+		if staticCallee(ci) == g {
+			n++
+		}
+	}
+	return n
+}
+
+// c02ResultTypes: the Type constants of the ValidationResults v can be, followed through phis and through the results of
+// module functions; a Type that is a parameter of a constructor is the argument of the call the value came through (the
+// walk is context-sensitive: env maps the parameters of the function being looked at to the values of its caller).
+func c02ResultTypes(w *World, v ssa.Value) map[string]bool {
+	out := map[string]bool{}
+	type envT map[*ssa.Parameter]ssa.Value
+	var typeOf func(v ssa.Value, env []envT, depth int)
+	var rec func(v ssa.Value, env []envT, depth int)
+	typeOf = func(v ssa.Value, env []envT, depth int) {
+		switch x := c02Unconv(v).(type) {
+		case *ssa.Const:
+			if x.Value != nil {
+				out[constString(x)] = true
+			}
+		case *ssa.Parameter:
+			if n := len(env); n > 0 {
+				if a, ok := env[n-1][x]; ok && depth < 8 {
+					typeOf(a, env[:n-1], depth+1)
+				}
+			}
+		case *ssa.Phi:
+			if depth < 8 {
+				for _, e := range x.Edges {
+					typeOf(e, env, depth+1)
+				}
+			}
+		}
+	}
+	seen := map[ssa.Value]bool{}
+	rec = func(v ssa.Value, env []envT, depth int) {
+		if depth > 8 || (len(env) == 0 && seen[v]) {
+			return
+		}
+		if len(env) == 0 {
+			seen[v] = true
+		}
+		switch x := v.(type) {
+		case *ssa.Alloc:
+			if namedOf(x.Type()) != vrType || x.Referrers() == nil {
+				return
+			}
+			for _, r := range *x.Referrers() {
+				fa, ok := r.(*ssa.FieldAddr)
+				if !ok || fieldName(x.Type(), fa.Field) != "Type" || fa.Referrers() == nil {
+					continue
+				}
+				for _, rr := range *fa.Referrers() {
+					if st, ok := rr.(*ssa.Store); ok && st.Addr == ssa.Value(fa) {
+						typeOf(st.Val, env, depth)
+					}
+				}
+			}
+		case *ssa.Phi:
+			for _, e := range x.Edges {
+				rec(e, env, depth+1)
+			}
+		case *ssa.Extract, *ssa.Call:
+			call := callOf(v)
+			k := 0
+			if e, isE := v.(*ssa.Extract); isE {
+				k = e.Index
+			}
+			if call == nil {
+				return
+			}
+			g := staticCallee(call)
+			if g == nil || g.Blocks == nil || !w.IsProductFn(g) || len(call.Call.Args) != len(g.Params) {
+				return
+			}
+			ne := envT{}
+			for i, q := range g.Params {
+				ne[q] = call.Call.Args[i]
+			}
+			for _, b := range g.Blocks {
+				if r, ok := blockTerm(b).(*ssa.Return); ok && k < len(r.Results) {
+					rec(r.Results[k], append(append([]envT{}, env...), ne), depth+1)
+				}
+			}
+		}
+	}
+	rec(v, nil, 0)
+	return out
+}
+
+// c02ReturnsType: g hands back a ValidationResult whose Type is the constant — allocated by g itself or by a constructor g
+// calls with that constant.
+func c02ReturnsType(w *World, g *ssa.Function, konst string) bool {
+	for _, b := range g.Blocks {
+		if r, ok := blockTerm(b).(*ssa.Return); ok {
+			for _, x := range r.Results {
+				if isVRPtr(x.Type()) && c02ResultTypes(w, x)[konst] {
+					return true
+				}
+			}
+		}
+	}
+	return false
+}
+
+// c02CtorErrParam: g is a constructor of validation results that stores its parameter k as the Error of the result it
+// returns: every return hands back one and the same fresh ValidationResult, whose Error field is stored exactly once, from
+// parameter k, before the return. -1 if g is none. A call g(…, e, …) then IS `&ValidationResult{…, Error: e}`.
+func c02CtorErrParam(w *World, g *ssa.Function) int {
+	if g == nil || g.Blocks == nil || !w.IsProductFn(g) || g.Signature.Results().Len() != 1 || !isVRPtr(g.Signature.Results().At(0).Type()) {
+		return -1
+	}
+	var A *ssa.Alloc
+	var rets []*ssa.Return
+	for _, b := range g.Blocks {
+		if r, ok := blockTerm(b).(*ssa.Return); ok {
+			al, isA := r.Results[0].(*ssa.Alloc)
+			if !isA || (A != nil && al != A) {
+				return -1
+			}
+			A = al
+			rets = append(rets, r)
+		}
+	}
+	if A == nil || A.Referrers() == nil {
+		return -1
+	}
+	var st *ssa.Store
+	for _, r := range *A.Referrers() {
+		fa, ok := r.(*ssa.FieldAddr)
+		if !ok || fieldName(A.Type(), fa.Field) != "Error" || fa.Referrers() == nil {
+			continue
+		}
+		for _, rr := range *fa.Referrers() {
+			if s, ok := rr.(*ssa.Store); ok && s.Addr == ssa.Value(fa) {
+				if st != nil {
+					return -1
+				}
+				st = s
+			}
+		}
+	}
+	if st == nil {
+		return -1
+	}
+	par, ok := st.Val.(*ssa.Parameter)
+	if !ok {
+		return -1
+	}
+	for _, r := range rets {
+		if !c02InstrDominates(st, r) {
+			return -1
+		}
+	}
+	for i, q := range g.Params {
+		if q == par {
+			return i
+		}
+	}
+	return -1
+}
+
+// c02ErrorStores adds to cut the edges behind which a non-nil Error has been put into a validation result of R, and counts
+// the sites. A site is a store `r.Error = e`, or a call `ctor(…, e, …)` of a constructor of results that stores its
+// parameter as the Error (c02CtorErrParam): the same object construction, written as a function.
+//   - e provably non-nil in the block of the site: every edge into the block;
+//   - e a variable that is merged at the head of that block (`var e error; if !ok { e = errors.New(…) }; r := ctor(e)`): only
+//     the incoming edges on which the merged value is provably non-nil — a path that arrives over another edge (the
+//     error local still nil) is NOT cut and stays visible to the witness search.
+func c02ErrorStores(w *World, fi *FnInfo, R *ssa.Function, cut map[edgeKey]bool) int {
+	n := 0
+	for _, b := range R.Blocks {
+		for _, in := range b.Instrs {
+			var e ssa.Value
+			switch x := in.(type) {
+			case *ssa.Store:
+				fa, isFa := x.Addr.(*ssa.FieldAddr)
+				if isFa && isVRPtr(fa.X.Type()) && fieldName(fa.X.Type(), fa.Field) == "Error" {
+					e = x.Val
+				}
+			case *ssa.Call:
+				if g := staticCallee(x); g != nil {
+					if k := c02CtorErrParam(w, g); k >= 0 && k < len(x.Call.Args) {
+						e = x.Call.Args[k]
+					}
+				}
+			}
+			if e == nil {
+				continue
+			}
+			if fi.nonNil(e, b) {
+				n++
+				cutInto(fi, b, cut)
+				continue
+			}
+			if p, isPhi := e.(*ssa.Phi); isPhi && p.Block() == b {
+				some := false
+				for i, pe := range p.Edges {
+					if i < len(b.Preds) && fi.nonNil(pe, b.Preds[i]) {
+						some = true
+						for j, sc := range b.Preds[i].Succs {
+							if sc == b {
+								cut[edgeKey{b.Preds[i].Index, j}] = true
+							}
+						}
+					}
+				}
+				if some {
+					n++
+				}
+			}
+		}
+	}
+	return n
 }
